@@ -85,7 +85,7 @@ CLAIMED = {
              note="PARTIAL: also proved (antisymmetry of the dealiased convolution sums under m -> -m, any field of characteristic 0, 2K < N): zero mean of the non-conservative single-channel and 1D "
                   "default convection and of the 2D vorticity convection for every state, and of the Leray-projected 3D rotational form on divergence-free states. Work: with the dealiased products and 3K < N the "
                   "single-channel Burgers-type convection (both forms) does no work on its state and the 2D vorticity convection none against vorticity (enstrophy) or stream function (energy), "
-                  "for every state (slot symmetry of triple sums over the band + additivity of derivative symbols). Energy neutrality of the 3D rotational form is not proved; it and all of the above are also checked on the real code by the witness oracle for all listed steppers x orders 1-4 x D x N parity.",
+                  "for every state (slot symmetry of triple sums over the band + additivity of derivative symbols). The Leray-projected 3D rotational form does no work on divergence-free states. Not proved: that the implementation's real-space L2 pairing is this bilinear band pairing (Parseval, C16/C17) and rounding; all of the above are also checked on the real code by the witness oracle for all listed steppers x orders 1-4 x D x N parity.",
              technique="Rocq proof (stage-program algebra, list induction; tableaux fixed points) + exact symbol correspondence + conservation oracle on the real code", design="§4 C09"),
  "C12": dict(text="Theorems: for 0<k<N/2 the 2D injection array equals N^2/2 * (-k s gamma) at stored mode (0,k) and 0 elsewhere, the 3D one N^3/2 * (-/+ i gamma) at (0,+/-k,0) in channel 0 and 0 elsewhere "
                   "- the transforms of the documented -k(2pi/L)gamma cos and gamma sin (transform of a real harmonic proved from a primitive root); the 2D convection term vanishes identically on "
